@@ -1,5 +1,12 @@
-//! Reading and assembling the public proof encoding:
-//! 11 points | 3 scalars | u64 count, L.. | u64 count, R.. | a | b   (all compressed).
+//! Reading and assembling proofs.
+//!
+//! The fields are taken *by name* through hook H3 (`R1CSProof::verif_fields` /
+//! `verif_from_fields`) and bytes are produced and consumed by the crate's own encoder and decoder,
+//! so that a tree whose derived serialization lays the fields out in another order (C18's
+//! business, and only C18's) does not confuse the checks that reason about A_I2, T_3, ... by
+//! name. The positional reader/writer of the reference layout
+//! `11 points | 3 scalars | u64 count, L.. | u64 count, R.. | a | b` (all compressed) remains as the
+//! fallback for byte strings the crate's decoder refuses, and for the checks that do byte surgery.
 use crate::curves::{point_len, pt_bytes, sc_bytes, scalar_len};
 use ark_bulletproofs::r1cs::R1CSProof;
 use ark_ec::AffineRepr;
@@ -22,6 +29,24 @@ impl<G: AffineRepr> Parts<G> {
     /// Parse the encoding with unchecked point decoding of each slot (the harness wants to see
     /// what is there, not to validate it).
     pub fn parse(bytes: &[u8]) -> Option<Self> {
+        if let Ok(Ok(obj)) = crate::evidence::guarded(|| R1CSProof::<G>::from_bytes(bytes)) {
+            return Some(Self::from_proof(&obj));
+        }
+        Self::parse_positional(bytes)
+    }
+    /// The proof object's fields by name (hook H3).
+    pub fn from_proof(p: &R1CSProof<G>) -> Self {
+        let (pts, sc, l, r, a, b) = p.verif_fields();
+        Parts { pts: pts.to_vec(), sc: sc.to_vec(), l, r, a, b }
+    }
+    /// In-memory proof object with exactly these fields (hook H3); no validation.
+    fn object(&self) -> Option<R1CSProof<G>> {
+        let pts: [G; 11] = self.pts.clone().try_into().ok()?;
+        let sc: [G::ScalarField; 3] = self.sc.clone().try_into().ok()?;
+        Some(R1CSProof::<G>::verif_from_fields(pts, sc, self.l.clone(), self.r.clone(), self.a, self.b))
+    }
+    /// Reference layout, slot by slot.
+    pub fn parse_positional(bytes: &[u8]) -> Option<Self> {
         let pl = point_len::<G>();
         let sl = scalar_len::<G>();
         let mut off = 0usize;
@@ -61,7 +86,16 @@ impl<G: AffineRepr> Parts<G> {
         let l = vecs.pop().unwrap();
         Some(Parts { pts, sc: scs, l, r, a, b })
     }
+    /// The crate's own encoding of an object with these fields.
     pub fn to_bytes(&self) -> Vec<u8> {
+        if let Some(obj) = self.object() {
+            if let Ok(Ok(b)) = crate::evidence::guarded(|| obj.to_bytes()) {
+                return b;
+            }
+        }
+        self.to_bytes_positional()
+    }
+    pub fn to_bytes_positional(&self) -> Vec<u8> {
         let mut out = vec![];
         for p in &self.pts {
             out.extend(pt_bytes(p));
